@@ -13,7 +13,7 @@ done
 for d in seeded/*/; do
   n=$(basename $d); id=${n%%-*}
   [ -f $d/patch.diff ] || continue
-  git -C /repo apply $d/patch.diff || { echo "mutant $n does-not-apply" >> $OUT; continue; }
+  git -C /repo apply /verif/$d/patch.diff || { echo "mutant $n does-not-apply" >> $OUT; continue; }
   s=$(date +%s); ./check $id --tier $TIER > work/matrix_$n.log 2>&1; rc=$?
   git -C /repo checkout -- .
   echo "mutant $n rc=$rc $(( $(date +%s) - s ))s | $(grep '^VIOLATION' work/matrix_$n.log | head -1 | cut -c1-200)" >> $OUT
